@@ -52,7 +52,7 @@ def _gen_queue(rng, tier):
     handlers = []
     for _ in range(rng.randint(2, 9)):
         kind = rng.choice(["sync", "sync", "wait", "wait", "wait_now", "async", "nested", "wait_post", "sync_false",
-                           "wait_false"])
+                           "wait_false", "async_cancel"])
         handlers.append([rng.choice(EVENTS), rng.choice([1, 1, 2, 2, 5, 10]), kind, rng.choice(DELAYS),
                          rng.choice(EVENTS)])
     posts = []
@@ -256,7 +256,7 @@ def _run_queue(case):
     clauses = {"queue_sequence": 0, "queue_callback_once": 0, "no_enter_during_wait": 0, "callback_after_last_clear": 0,
                "queue_progress": 0, "queue_priority_order": 0}
     obs = {"queue_posts": 0, "waits": 0, "clears": 0, "enters": 0, "max_open_waits": 0, "nested_queue_posts": 0,
-           "enters_of_other_posts_during_wait": 0, "async_handlers": 0}
+           "enters_of_other_posts_during_wait": 0, "async_handlers": 0, "async_cancelled": 0}
     viol = []
 
     def V(clause, sig, **d):
@@ -336,7 +336,7 @@ def _run_queue(case):
             queue.clear()
 
         def make_handler(hid, prio, kind, delay, other):
-            if kind == "async":
+            if kind in ("async", "async_cancel"):
                 async def coro(**kwargs):
                     pid = kwargs.get("_pid")
                     P = on_enter(hid, prio, pid)
@@ -347,12 +347,22 @@ def _run_queue(case):
                         obs["waits"] += 1
                         log.append(("wait", pid, hid, vm.now()))
                     st["last_clear_time"] = max(st["last_clear_time"], vm.now() + delay)
-                    await asyncio.sleep(delay)
-                    if P is not None:
-                        P["open_wait"] = None
-                        P["last_clear"] = vm.now()
-                        obs["clears"] += 1
-                        log.append(("clear", pid, hid, vm.now()))
+                    try:
+                        if kind == "async_cancel":
+                            # the job the coroutine awaits is owned by somebody else and gets aborted: the handler
+                            # task ends with CancelledError, which releases the wait like a normal return does
+                            fut = asyncio.Future()
+                            vm.loop.call_later(delay, fut.cancel)
+                            obs["async_cancelled"] += 1
+                            await fut
+                        else:
+                            await asyncio.sleep(delay)
+                    finally:
+                        if P is not None:
+                            P["open_wait"] = None
+                            P["last_clear"] = vm.now()
+                            obs["clears"] += 1
+                            log.append(("clear", pid, hid, vm.now()))
                 return coro, True
 
             def h(queue, **kwargs):
